@@ -64,10 +64,14 @@ pub const INDEX_OPS: &[&str] = &[
     "path_last_minus",
     "path_last_plus",
     "path_slice",
+    "path_slice_idx_idx",
+    "path_slice_last_idx",
+    "path_slice_last_last",
     "path_text_index",
     "path_text_last_minus",
     "path_text_last_plus",
     "path_text_slice",
+    "path_text_slice_idx_idx",
     "keypath_text",
     "get_by_index_extreme",
     // extreme VALUES rather than positions: NaN, the infinities, negative zero, the ends of the integer ranges
@@ -602,7 +606,7 @@ fn run_special(op: &str) -> String {
             let texts: &[&str] = &[
                 "$[*]?(@ == 18446744073709551615)", "$[*]?(@ == 18446744073709551616)", "$[*]?(@ > -9223372036854775808)", "$[*]?(@ < -9223372036854775809)",
                 "$[*]?(@ <= 1e999)", "$[*]?(@ >= -1e999)", "$[*]?(@ != 5e-324)", "$[*]?(@ == 99999999999999999999999999999999999999)", "$[4294967295]", "$[4294967296]",
-                "$[2147483648]", "$[-2147483649]", "$[last - 4294967296]", "$[0 to 2147483648]", "$[*]?(@ == -0)", "$[*]?(@ == 0.0000000000000000000000000000000001)",
+                "$[2147483648]", "$[-2147483649]", "$[last - 4294967296]", "$[0 to 2147483648]", "$[0 to 2147483647]", "$[-2147483648 to 2147483647]", "$[2147483647 to 2147483647]", "$[last to 2147483647]", "$[*]?(@ == -0)", "$[*]?(@ == 0.0000000000000000000000000000000001)",
                 "$ == 1e999", "$[*] > 18446744073709551616",
             ];
             for t in texts {
@@ -656,6 +660,7 @@ fn run_index_text_op(op: &str, index: i32, index2: i32, len: usize, text: bool) 
         "path_text_index" => format!("$[{index}]"),
         "path_text_last_minus" => format!("$[last - {index}]"),
         "path_text_last_plus" => format!("$[last + {index}]"),
+        "path_text_slice_idx_idx" => format!("$[{index2} to {index}]"),
         _ => format!("$[{index} to last - {index2}]"),
     };
     match jp::parse_json_path(t.as_bytes()) {
@@ -693,6 +698,9 @@ pub const API_FUNCS: &[(&str, bool, char)] = &[
     ("array_distinct", false, 'a'), ("object_delete", false, 'o'), ("object_pick", false, 'o'), ("strip_nulls", false, 'a'), ("path_exists_root", false, 'a'),
     ("path_match_predicate", false, 'a'), ("get_by_path_first_elem", false, 'a'), ("get_by_path_array_wild", false, 'a'), ("parse_lazy_value", false, 'a'),
     ("lazy_raw_to_vec", false, 'a'), ("lazy_raw_array_length", false, 'a'), ("lazy_raw_write_to_vec", false, 'a'),
+    // the statement's own operation classes, here for their argument layouts (deep TEXT in particular)
+    ("to_string", false, 'a'), ("to_pretty_string", false, 'a'), ("convert_to_comparable", false, 'a'), ("get_by_path_root", false, 'a'),
+    ("from_slice", false, 'a'), ("parse_jsonb", false, 'a'), ("parse_value", false, 'a'), ("compare", true, 'a'),
     ("contains", true, 'a'), ("concat", true, 'a'), ("array_insert", true, 'a'), ("array_intersection", true, 'a'), ("array_except", true, 'a'),
     ("array_overlap", true, 'a'), ("object_insert", true, 'o'), ("build_array", true, 'a'), ("build_object", true, 'o'),
 ];
@@ -786,6 +794,17 @@ fn run_api(func: &str, variant: &str, shape: &str, depth: u64) -> String {
         "lazy_raw_to_vec" => { let _ = jsonb::LazyValue::Raw(Cow::Borrowed(&a)).to_vec(); }
         "lazy_raw_array_length" => { let _ = jsonb::LazyValue::Raw(Cow::Borrowed(&a)).array_length(); }
         "lazy_raw_write_to_vec" => { jsonb::LazyValue::Raw(Cow::Borrowed(&a)).write_to_vec(&mut out); }
+        "to_string" => { let _ = jsonb::to_string(&a); }
+        "to_pretty_string" => {
+            // quadratic output on deep JSONB: bounded by the stack on the unchanged tree (it dies of stack exhaustion first)
+            let _ = jsonb::to_pretty_string(&a);
+        }
+        "convert_to_comparable" => { jsonb::convert_to_comparable(&a, &mut out); }
+        "get_by_path_root" => { let _ = jsonb::get_by_path(&a, root(), &mut out, &mut offs); }
+        "from_slice" => { if let Ok(v) = jsonb::from_slice(&a) { dismantle(v); } }
+        "parse_jsonb" => { if let Ok(v) = jsonb::parse_jsonb(&a) { dismantle(v); } }
+        "parse_value" => { if let Ok(v) = jsonb::parse_value(&a) { dismantle(v); } }
+        "compare" => { let _ = jsonb::compare(&a, &b); }
         "contains" => { let _ = jsonb::contains(&a, &b); }
         "concat" => { let _ = jsonb::concat(&a, &b, &mut out); }
         "array_insert" => { let _ = jsonb::array_insert(&a, 1, &b, &mut out); }
@@ -817,6 +836,9 @@ fn index_op(op: &str, index: i32, index2: i32) -> Op {
         "path_last_minus" => sel(AIdx::One(MIdx::Last(index.saturating_neg()))),
         "path_last_plus" => sel(AIdx::One(MIdx::Last(index))),
         "path_slice" => sel(AIdx::Slice(MIdx::Idx(index), MIdx::Last(index2))),
+        "path_slice_idx_idx" => sel(AIdx::Slice(MIdx::Idx(index2), MIdx::Idx(index))),
+        "path_slice_last_idx" => sel(AIdx::Slice(MIdx::Last(index2), MIdx::Idx(index))),
+        "path_slice_last_last" => sel(AIdx::Slice(MIdx::Last(index), MIdx::Last(index2))),
         o => unreachable!("index op {o}"),
     }
 }
@@ -1046,7 +1068,7 @@ impl Limits {
                 for index in idxs {
                     for text in [false, true] {
                         for build in BUILDS {
-                            let index2s: Vec<i32> = if op.ends_with("slice") { vec![i32::MIN, 0, i32::MAX] } else { vec![0] };
+                            let index2s: Vec<i32> = if op.contains("slice") { vec![i32::MIN, 0, i32::MAX] } else { vec![0] };
                             for index2 in index2s {
                                 v.push(Case::Index { op: op.to_string(), index, index2, len, text, build: build.to_string() });
                             }
@@ -1402,7 +1424,7 @@ impl Scenario for Limits {
          the depth ladder {1,2,10,100,1e3,1e4,1e5,3e5} x stack budgets {8 MiB, 2 MiB} x builds {dev = unoptimised with overflow checks and debug assertions, checked = optimised with the same checks, shipped = release defaults}, all enumerated, \
          plus seeded log-uniform depths between the rungs with stacks {1,2,4,8 MiB}. Extreme-argument cases: {delete_by_index, array_insert, delete_by_keypath, get_by_keypath, $[i], \
          $[last-i], $[last+i], $[a to b]} x {MIN, MIN+1, -len-1, -len, -1, 0, len-1, len, len+1, MAX-1, MAX} x len {0,1,3} x {JSONB, JSON text} x all three builds, all enumerated, plus seeded i32s. \
-         API sweep: 49 public byte-level functions x every argument layout (deep JSONB / deep text in each position, small JSONB / text in the other) x {arrays, objects} x {dev, shipped} \
+         API sweep: 57 public functions x every argument layout (deep JSONB / deep text in each position, small JSONB / text in the other) x {arrays, objects} x {dev, shipped} \
          at 200,000 levels on a 1 MiB stack; variants that die on the unchanged tree are recorded in limits_baseline.json, so the sweep reports regressions only. \
          distinct_nontrivial = distinct cases with depth >= 2 or an index outside -len..len."
             .into()
